@@ -8,6 +8,7 @@ import (
 	"os"
 
 	"verif/harness/orch"
+	"verif/harness/props"
 	"verif/harness/report"
 )
 
@@ -29,6 +30,10 @@ func init() {
 	registry["C15"] = inprocProp("c15", 600, 3600)
 	registry["C16"] = inprocProp("c16", 600, 3600)
 	registry["C17"] = inprocProp("c17", 900, 7200)
+	registry["SURVEY"] = survey
+	for k, f := range props.Registry {
+		registry[k] = f
+	}
 }
 
 func main() {
